@@ -1686,7 +1686,7 @@ class ContractionTree:
                     tree.info[node].pop(k, None)
 
         tree.already_optimized.clear()
-        tree.contraction_cores.clear()
+        tree._reset_contraction_recipes()
 
         return tree
 
@@ -1733,7 +1733,7 @@ class ContractionTree:
 
         # reset caches
         tree.already_optimized.clear()
-        tree.contraction_cores.clear()
+        tree._reset_contraction_recipes()
 
         return tree
 
@@ -1953,8 +1953,9 @@ class ContractionTree:
             if progbar:
                 pbar.close()
 
-        # invalidate any compiled contractions
-        tree.contraction_cores.clear()
+        # invalidate any compiled contractions, and the cached contraction
+        # information of nodes whose children have been re-created
+        tree._reset_contraction_recipes()
 
         return tree
 
@@ -2925,6 +2926,26 @@ class ContractionTree:
         # invalidate any compiled contractions
         self.contraction_cores.clear()
 
+    def _reset_contraction_recipes(self):
+        """Delete the cached information which depends on the explicit order
+        of the contraction indices of a node *and of its children* (but not
+        the orderings themselves), and any compiled contractions. Needs to be
+        called whenever the indices of any node might be (re)generated, since
+        the parent of that node is otherwise left with e.g. tensordot axes
+        that refer to the old order of its child.
+        """
+        for node_info in self.info.values():
+            for k in (
+                "einsum_eq",
+                "can_dot",
+                "tensordot_axes",
+                "tensordot_perm",
+            ):
+                node_info.pop(k, None)
+
+        # invalidate any compiled contractions
+        self.contraction_cores.clear()
+
     def sort_contraction_indices(
         self,
         priority="flops",
@@ -3008,8 +3029,9 @@ class ContractionTree:
                     r_inds = "".join(sorted(self.get_legs(r), key=rsort))
                     self.info[r]["inds"] = r_inds
 
-        # invalidate any compiled contractions
-        self.contraction_cores.clear()
+        # invalidate any compiled contractions, and anything that was cached
+        # (e.g. if ``reset=False``) for the previous order of the indices
+        self._reset_contraction_recipes()
 
     def print_contractions(self, sort=None, show_brackets=True):
         """Print each pairwise contraction, with colorized indices (if
